@@ -172,6 +172,20 @@ package eval
 //@ func tryFoldUnary
 //@   inline
 
+// tryPartial mirrors tryFold; errors of the children are propagated in order.
+//@ func tryPartial
+//@   inline
+//@   loop 1
+//@     invariant len(nodes) == len(old(nodes))
+//@     invariant forall j int :: (0 <= j && j < $i) ==> (nodes[j] == keptNode(env, old(nodes)[j]) && !hardErr(pE(env, old(nodes)[j])))
+//@     invariant forall j int :: ($i <= j && j < len(nodes)) ==> nodes[j] == old(nodes)[j]
+//@     invariant ok == (forall j int :: (0 <= j && j < $i) ==> isLitP(env, old(nodes)[j]))
+//@     invariant ok ==> (len(values) == $i && (forall j int :: (0 <= j && j < $i) ==> values[j] == pN(env, old(nodes)[j]).(ast.NodeValue).Value))
+//@ func tryPartialBinary
+//@   inline
+//@ func tryPartialUnary
+//@   inline
+
 // foldPolicy works on a copy: the policy it is given (the one MarshalCedar,
 // MarshalJSON and AST() show) is left as it was, the scope and the effect are
 // carried over, and every condition body is folded in place in the copy.
@@ -397,7 +411,6 @@ package eval
 
 //@ func ValueToEntity
 //@   props C01
-//@   pure
 //@   results r, err
 //@   ensures (v is types.EntityUID) ? (err == nil && r == v.(types.EntityUID)) : (err != nil && errIs(err, ErrType))
 
@@ -694,28 +707,12 @@ package eval
 //@   ensures okEntity(n.lhs, env) ==> (err == nil && v == types.Boolean(vEntity(n.lhs, env).Type == n.rhs))
 
 // ---- entity hierarchy: in / is in ----
-// The error reported for a set with non-entity members is the conversion error of such a member. It is a
-// function of the set only if all such members give the same error (C14): inSetErr names that error.
-//@ spec func uniformSetErr(s types.Set) bool = forall a types.Value, b types.Value :: (iter_Set_All(s, a) && iter_Set_All(s, b) && !(a is types.EntityUID) && !(b is types.EntityUID)) ==> ValueToEntity#1(a) == ValueToEntity#1(b)
-//@ spec func inSetErr(s types.Set) error
-//@ axiom in_set_err: forall s types.Set, x types.Value :: { iter_Set_All(s, x) } (uniformSetErr(s) && iter_Set_All(s, x) && !(x is types.EntityUID)) ==> inSetErr(s) == ValueToEntity#1(x)
 //@ func doInEval
-//@   props C01 C03 C14
+//@   props C01 C03
 //@   pure
 //@   results v, err
 //@   ensures (rhs is types.EntityUID) ==> err == nil && v == types.Boolean(reach(env, lhs, rhs.(types.EntityUID)))
 //@   ensures (!(rhs is types.EntityUID) && !(rhs is types.Set)) ==> err != nil && errIs(err, ErrType)
-// `e in [..]`: every member must be an entity (whatever the answer would be), then some member is reachable
-//@   dispatch Container.Contains
-//@   ensures set_type: ((rhs is types.Set) && (exists x types.Value :: iter_Set_All(rhs.(types.Set), x) && !(x is types.EntityUID))) ==> (err != nil && errIs(err, ErrType))
-//@   ensures set_err_deterministic: ((rhs is types.Set) && (exists x types.Value :: iter_Set_All(rhs.(types.Set), x) && !(x is types.EntityUID))) ==> err == inSetErr(rhs.(types.Set))
-//@   ensures set_ok: ((rhs is types.Set) && (forall x types.Value :: iter_Set_All(rhs.(types.Set), x) ==> (x is types.EntityUID))) ==> err == nil
-//@   ensures set_sound: ((rhs is types.Set) && err == nil && v == types.Value(types.Boolean(true))) ==> (exists t types.EntityUID :: iter_Set_All(rhs.(types.Set), types.Value(t)) && reach(env, lhs, t))
-//@   ensures set_complete: ((rhs is types.Set) && err == nil && v != types.Value(types.Boolean(true))) ==> (v == types.Value(types.Boolean(false)) && (forall t types.EntityUID :: { reach(env, lhs, t) } iter_Set_All(rhs.(types.Set), types.Value(t)) ==> !reach(env, lhs, t)))
-//@   loop 1
-//@     invariant query != nil
-//@     invariant forall x types.Value :: { $done[x] } $done[x] ==> ((x is types.EntityUID) && has(query.m, x.(types.EntityUID)))
-//@     invariant forall t types.EntityUID :: { has(query.m, t) } has(query.m, t) ==> $done[types.Value(t)]
 
 //@ func (inEval) Eval
 //@   props C01
@@ -1032,5 +1029,59 @@ package eval
 //@     invariant len(elements) == len(v.Elements) && !isnil(elements) && (forall j int :: (0 <= j && j < $i) ==> elements[j] == v.Elements[j].Value)
 //@   loop 4
 //@     invariant len(el) == len(nodes) && !isnil(el) && (forall j int :: (0 <= j && j < $i) ==> (el[j].Key == v.Elements[j].Key && el[j].Value == nodes[j]))
+//@   loop 5
+//@     invariant len(el) == len(values) && !isnil(el)
+
+// ---- partial evaluation: structure of the result (C06) ----
+// partial(env, n) partially evaluates the children in source order. The first child whose
+// partial evaluation fails with an error other than 'depends on an unknown' decides the
+// result. Otherwise, if every child became a literal, the operator is evaluated on those
+// literals under env with exactly the evaluator the full semantics uses (ToEval): an
+// error is returned as such, an unknown result keeps the rebuilt node (marked errVariable),
+// an ignored result yields errIgnore, anything else the literal. If some child is not a
+// literal the node is rebuilt from the children (a child that depends on an unknown is
+// kept as written).
+//@ spec func pN(env Env, c ast.IsNode) ast.IsNode = partial#0(env, c)
+//@ spec func pE(env Env, c ast.IsNode) error = partial#1(env, c)
+//@ spec func hardErr(e error) bool = e != nil && !errIs(e, errVariable)
+//@ spec func keptNode(env Env, c ast.IsNode) ast.IsNode = errIs(pE(env, c), errVariable) ? c : pN(env, c)
+//@ spec func isLitP(env Env, c ast.IsNode) bool = pE(env, c) == nil && (pN(env, c) is ast.NodeValue)
+//@ spec func pOutcome(r ast.IsNode, err error, rebuilt ast.IsNode, ev Evaler, env Env) bool = (evE(ev, env) != nil) ? (err == evE(ev, env)) : (isVar(evV(ev, env)) ? (r == rebuilt && err == errVariable) : (isIgn(evV(ev, env)) ? (err == errIgnore) : (err == nil && r == ast.IsNode(mkstruct(ast.NodeValue, evV(ev, env))))))
+//@ func partial
+//@   props C06
+//@   pure
+//@   calldepth 8
+//@   dispatch Evaler.Eval@errorEval
+//@   results r, err
+//@   ensures (n is ast.NodeTypeIn) ==> (hardErr(pE(env, n.(ast.NodeTypeIn).Left)) ? (err == pE(env, n.(ast.NodeTypeIn).Left)) : (hardErr(pE(env, n.(ast.NodeTypeIn).Right)) ? (err == pE(env, n.(ast.NodeTypeIn).Right)) : ((isLitP(env, n.(ast.NodeTypeIn).Left) && isLitP(env, n.(ast.NodeTypeIn).Right)) ? pOutcome(r, err, ast.IsNode(mkstruct(ast.NodeTypeIn, mkstruct(ast.BinaryNode, keptNode(env, n.(ast.NodeTypeIn).Left), keptNode(env, n.(ast.NodeTypeIn).Right)))), ToEval#0(ast.IsNode(mkstruct(ast.NodeTypeIn, mkstruct(ast.BinaryNode, pN(env, n.(ast.NodeTypeIn).Left), pN(env, n.(ast.NodeTypeIn).Right))))), env) : (err == nil && r == ast.IsNode(mkstruct(ast.NodeTypeIn, mkstruct(ast.BinaryNode, keptNode(env, n.(ast.NodeTypeIn).Left), keptNode(env, n.(ast.NodeTypeIn).Right))))))))
+//@   ensures (n is ast.NodeTypeEquals) ==> (hardErr(pE(env, n.(ast.NodeTypeEquals).Left)) ? (err == pE(env, n.(ast.NodeTypeEquals).Left)) : (hardErr(pE(env, n.(ast.NodeTypeEquals).Right)) ? (err == pE(env, n.(ast.NodeTypeEquals).Right)) : ((isLitP(env, n.(ast.NodeTypeEquals).Left) && isLitP(env, n.(ast.NodeTypeEquals).Right)) ? pOutcome(r, err, ast.IsNode(mkstruct(ast.NodeTypeEquals, mkstruct(ast.BinaryNode, keptNode(env, n.(ast.NodeTypeEquals).Left), keptNode(env, n.(ast.NodeTypeEquals).Right)))), ToEval#0(ast.IsNode(mkstruct(ast.NodeTypeEquals, mkstruct(ast.BinaryNode, pN(env, n.(ast.NodeTypeEquals).Left), pN(env, n.(ast.NodeTypeEquals).Right))))), env) : (err == nil && r == ast.IsNode(mkstruct(ast.NodeTypeEquals, mkstruct(ast.BinaryNode, keptNode(env, n.(ast.NodeTypeEquals).Left), keptNode(env, n.(ast.NodeTypeEquals).Right))))))))
+//@   ensures (n is ast.NodeTypeNotEquals) ==> (hardErr(pE(env, n.(ast.NodeTypeNotEquals).Left)) ? (err == pE(env, n.(ast.NodeTypeNotEquals).Left)) : (hardErr(pE(env, n.(ast.NodeTypeNotEquals).Right)) ? (err == pE(env, n.(ast.NodeTypeNotEquals).Right)) : ((isLitP(env, n.(ast.NodeTypeNotEquals).Left) && isLitP(env, n.(ast.NodeTypeNotEquals).Right)) ? pOutcome(r, err, ast.IsNode(mkstruct(ast.NodeTypeNotEquals, mkstruct(ast.BinaryNode, keptNode(env, n.(ast.NodeTypeNotEquals).Left), keptNode(env, n.(ast.NodeTypeNotEquals).Right)))), ToEval#0(ast.IsNode(mkstruct(ast.NodeTypeNotEquals, mkstruct(ast.BinaryNode, pN(env, n.(ast.NodeTypeNotEquals).Left), pN(env, n.(ast.NodeTypeNotEquals).Right))))), env) : (err == nil && r == ast.IsNode(mkstruct(ast.NodeTypeNotEquals, mkstruct(ast.BinaryNode, keptNode(env, n.(ast.NodeTypeNotEquals).Left), keptNode(env, n.(ast.NodeTypeNotEquals).Right))))))))
+//@   ensures (n is ast.NodeTypeGreaterThan) ==> (hardErr(pE(env, n.(ast.NodeTypeGreaterThan).Left)) ? (err == pE(env, n.(ast.NodeTypeGreaterThan).Left)) : (hardErr(pE(env, n.(ast.NodeTypeGreaterThan).Right)) ? (err == pE(env, n.(ast.NodeTypeGreaterThan).Right)) : ((isLitP(env, n.(ast.NodeTypeGreaterThan).Left) && isLitP(env, n.(ast.NodeTypeGreaterThan).Right)) ? pOutcome(r, err, ast.IsNode(mkstruct(ast.NodeTypeGreaterThan, mkstruct(ast.BinaryNode, keptNode(env, n.(ast.NodeTypeGreaterThan).Left), keptNode(env, n.(ast.NodeTypeGreaterThan).Right)))), ToEval#0(ast.IsNode(mkstruct(ast.NodeTypeGreaterThan, mkstruct(ast.BinaryNode, pN(env, n.(ast.NodeTypeGreaterThan).Left), pN(env, n.(ast.NodeTypeGreaterThan).Right))))), env) : (err == nil && r == ast.IsNode(mkstruct(ast.NodeTypeGreaterThan, mkstruct(ast.BinaryNode, keptNode(env, n.(ast.NodeTypeGreaterThan).Left), keptNode(env, n.(ast.NodeTypeGreaterThan).Right))))))))
+//@   ensures (n is ast.NodeTypeGreaterThanOrEqual) ==> (hardErr(pE(env, n.(ast.NodeTypeGreaterThanOrEqual).Left)) ? (err == pE(env, n.(ast.NodeTypeGreaterThanOrEqual).Left)) : (hardErr(pE(env, n.(ast.NodeTypeGreaterThanOrEqual).Right)) ? (err == pE(env, n.(ast.NodeTypeGreaterThanOrEqual).Right)) : ((isLitP(env, n.(ast.NodeTypeGreaterThanOrEqual).Left) && isLitP(env, n.(ast.NodeTypeGreaterThanOrEqual).Right)) ? pOutcome(r, err, ast.IsNode(mkstruct(ast.NodeTypeGreaterThanOrEqual, mkstruct(ast.BinaryNode, keptNode(env, n.(ast.NodeTypeGreaterThanOrEqual).Left), keptNode(env, n.(ast.NodeTypeGreaterThanOrEqual).Right)))), ToEval#0(ast.IsNode(mkstruct(ast.NodeTypeGreaterThanOrEqual, mkstruct(ast.BinaryNode, pN(env, n.(ast.NodeTypeGreaterThanOrEqual).Left), pN(env, n.(ast.NodeTypeGreaterThanOrEqual).Right))))), env) : (err == nil && r == ast.IsNode(mkstruct(ast.NodeTypeGreaterThanOrEqual, mkstruct(ast.BinaryNode, keptNode(env, n.(ast.NodeTypeGreaterThanOrEqual).Left), keptNode(env, n.(ast.NodeTypeGreaterThanOrEqual).Right))))))))
+//@   ensures (n is ast.NodeTypeLessThan) ==> (hardErr(pE(env, n.(ast.NodeTypeLessThan).Left)) ? (err == pE(env, n.(ast.NodeTypeLessThan).Left)) : (hardErr(pE(env, n.(ast.NodeTypeLessThan).Right)) ? (err == pE(env, n.(ast.NodeTypeLessThan).Right)) : ((isLitP(env, n.(ast.NodeTypeLessThan).Left) && isLitP(env, n.(ast.NodeTypeLessThan).Right)) ? pOutcome(r, err, ast.IsNode(mkstruct(ast.NodeTypeLessThan, mkstruct(ast.BinaryNode, keptNode(env, n.(ast.NodeTypeLessThan).Left), keptNode(env, n.(ast.NodeTypeLessThan).Right)))), ToEval#0(ast.IsNode(mkstruct(ast.NodeTypeLessThan, mkstruct(ast.BinaryNode, pN(env, n.(ast.NodeTypeLessThan).Left), pN(env, n.(ast.NodeTypeLessThan).Right))))), env) : (err == nil && r == ast.IsNode(mkstruct(ast.NodeTypeLessThan, mkstruct(ast.BinaryNode, keptNode(env, n.(ast.NodeTypeLessThan).Left), keptNode(env, n.(ast.NodeTypeLessThan).Right))))))))
+//@   ensures (n is ast.NodeTypeLessThanOrEqual) ==> (hardErr(pE(env, n.(ast.NodeTypeLessThanOrEqual).Left)) ? (err == pE(env, n.(ast.NodeTypeLessThanOrEqual).Left)) : (hardErr(pE(env, n.(ast.NodeTypeLessThanOrEqual).Right)) ? (err == pE(env, n.(ast.NodeTypeLessThanOrEqual).Right)) : ((isLitP(env, n.(ast.NodeTypeLessThanOrEqual).Left) && isLitP(env, n.(ast.NodeTypeLessThanOrEqual).Right)) ? pOutcome(r, err, ast.IsNode(mkstruct(ast.NodeTypeLessThanOrEqual, mkstruct(ast.BinaryNode, keptNode(env, n.(ast.NodeTypeLessThanOrEqual).Left), keptNode(env, n.(ast.NodeTypeLessThanOrEqual).Right)))), ToEval#0(ast.IsNode(mkstruct(ast.NodeTypeLessThanOrEqual, mkstruct(ast.BinaryNode, pN(env, n.(ast.NodeTypeLessThanOrEqual).Left), pN(env, n.(ast.NodeTypeLessThanOrEqual).Right))))), env) : (err == nil && r == ast.IsNode(mkstruct(ast.NodeTypeLessThanOrEqual, mkstruct(ast.BinaryNode, keptNode(env, n.(ast.NodeTypeLessThanOrEqual).Left), keptNode(env, n.(ast.NodeTypeLessThanOrEqual).Right))))))))
+//@   ensures (n is ast.NodeTypeMult) ==> (hardErr(pE(env, n.(ast.NodeTypeMult).Left)) ? (err == pE(env, n.(ast.NodeTypeMult).Left)) : (hardErr(pE(env, n.(ast.NodeTypeMult).Right)) ? (err == pE(env, n.(ast.NodeTypeMult).Right)) : ((isLitP(env, n.(ast.NodeTypeMult).Left) && isLitP(env, n.(ast.NodeTypeMult).Right)) ? pOutcome(r, err, ast.IsNode(mkstruct(ast.NodeTypeMult, mkstruct(ast.BinaryNode, keptNode(env, n.(ast.NodeTypeMult).Left), keptNode(env, n.(ast.NodeTypeMult).Right)))), ToEval#0(ast.IsNode(mkstruct(ast.NodeTypeMult, mkstruct(ast.BinaryNode, pN(env, n.(ast.NodeTypeMult).Left), pN(env, n.(ast.NodeTypeMult).Right))))), env) : (err == nil && r == ast.IsNode(mkstruct(ast.NodeTypeMult, mkstruct(ast.BinaryNode, keptNode(env, n.(ast.NodeTypeMult).Left), keptNode(env, n.(ast.NodeTypeMult).Right))))))))
+//@   ensures (n is ast.NodeTypeContains) ==> (hardErr(pE(env, n.(ast.NodeTypeContains).Left)) ? (err == pE(env, n.(ast.NodeTypeContains).Left)) : (hardErr(pE(env, n.(ast.NodeTypeContains).Right)) ? (err == pE(env, n.(ast.NodeTypeContains).Right)) : ((isLitP(env, n.(ast.NodeTypeContains).Left) && isLitP(env, n.(ast.NodeTypeContains).Right)) ? pOutcome(r, err, ast.IsNode(mkstruct(ast.NodeTypeContains, mkstruct(ast.BinaryNode, keptNode(env, n.(ast.NodeTypeContains).Left), keptNode(env, n.(ast.NodeTypeContains).Right)))), ToEval#0(ast.IsNode(mkstruct(ast.NodeTypeContains, mkstruct(ast.BinaryNode, pN(env, n.(ast.NodeTypeContains).Left), pN(env, n.(ast.NodeTypeContains).Right))))), env) : (err == nil && r == ast.IsNode(mkstruct(ast.NodeTypeContains, mkstruct(ast.BinaryNode, keptNode(env, n.(ast.NodeTypeContains).Left), keptNode(env, n.(ast.NodeTypeContains).Right))))))))
+//@   ensures (n is ast.NodeTypeContainsAll) ==> (hardErr(pE(env, n.(ast.NodeTypeContainsAll).Left)) ? (err == pE(env, n.(ast.NodeTypeContainsAll).Left)) : (hardErr(pE(env, n.(ast.NodeTypeContainsAll).Right)) ? (err == pE(env, n.(ast.NodeTypeContainsAll).Right)) : ((isLitP(env, n.(ast.NodeTypeContainsAll).Left) && isLitP(env, n.(ast.NodeTypeContainsAll).Right)) ? pOutcome(r, err, ast.IsNode(mkstruct(ast.NodeTypeContainsAll, mkstruct(ast.BinaryNode, keptNode(env, n.(ast.NodeTypeContainsAll).Left), keptNode(env, n.(ast.NodeTypeContainsAll).Right)))), ToEval#0(ast.IsNode(mkstruct(ast.NodeTypeContainsAll, mkstruct(ast.BinaryNode, pN(env, n.(ast.NodeTypeContainsAll).Left), pN(env, n.(ast.NodeTypeContainsAll).Right))))), env) : (err == nil && r == ast.IsNode(mkstruct(ast.NodeTypeContainsAll, mkstruct(ast.BinaryNode, keptNode(env, n.(ast.NodeTypeContainsAll).Left), keptNode(env, n.(ast.NodeTypeContainsAll).Right))))))))
+//@   ensures (n is ast.NodeTypeContainsAny) ==> (hardErr(pE(env, n.(ast.NodeTypeContainsAny).Left)) ? (err == pE(env, n.(ast.NodeTypeContainsAny).Left)) : (hardErr(pE(env, n.(ast.NodeTypeContainsAny).Right)) ? (err == pE(env, n.(ast.NodeTypeContainsAny).Right)) : ((isLitP(env, n.(ast.NodeTypeContainsAny).Left) && isLitP(env, n.(ast.NodeTypeContainsAny).Right)) ? pOutcome(r, err, ast.IsNode(mkstruct(ast.NodeTypeContainsAny, mkstruct(ast.BinaryNode, keptNode(env, n.(ast.NodeTypeContainsAny).Left), keptNode(env, n.(ast.NodeTypeContainsAny).Right)))), ToEval#0(ast.IsNode(mkstruct(ast.NodeTypeContainsAny, mkstruct(ast.BinaryNode, pN(env, n.(ast.NodeTypeContainsAny).Left), pN(env, n.(ast.NodeTypeContainsAny).Right))))), env) : (err == nil && r == ast.IsNode(mkstruct(ast.NodeTypeContainsAny, mkstruct(ast.BinaryNode, keptNode(env, n.(ast.NodeTypeContainsAny).Left), keptNode(env, n.(ast.NodeTypeContainsAny).Right))))))))
+//@   ensures (n is ast.NodeTypeGetTag) ==> (hardErr(pE(env, n.(ast.NodeTypeGetTag).Left)) ? (err == pE(env, n.(ast.NodeTypeGetTag).Left)) : (hardErr(pE(env, n.(ast.NodeTypeGetTag).Right)) ? (err == pE(env, n.(ast.NodeTypeGetTag).Right)) : ((isLitP(env, n.(ast.NodeTypeGetTag).Left) && isLitP(env, n.(ast.NodeTypeGetTag).Right)) ? pOutcome(r, err, ast.IsNode(mkstruct(ast.NodeTypeGetTag, mkstruct(ast.BinaryNode, keptNode(env, n.(ast.NodeTypeGetTag).Left), keptNode(env, n.(ast.NodeTypeGetTag).Right)))), ToEval#0(ast.IsNode(mkstruct(ast.NodeTypeGetTag, mkstruct(ast.BinaryNode, pN(env, n.(ast.NodeTypeGetTag).Left), pN(env, n.(ast.NodeTypeGetTag).Right))))), env) : (err == nil && r == ast.IsNode(mkstruct(ast.NodeTypeGetTag, mkstruct(ast.BinaryNode, keptNode(env, n.(ast.NodeTypeGetTag).Left), keptNode(env, n.(ast.NodeTypeGetTag).Right))))))))
+//@   ensures (n is ast.NodeTypeHasTag) ==> (hardErr(pE(env, n.(ast.NodeTypeHasTag).Left)) ? (err == pE(env, n.(ast.NodeTypeHasTag).Left)) : (hardErr(pE(env, n.(ast.NodeTypeHasTag).Right)) ? (err == pE(env, n.(ast.NodeTypeHasTag).Right)) : ((isLitP(env, n.(ast.NodeTypeHasTag).Left) && isLitP(env, n.(ast.NodeTypeHasTag).Right)) ? pOutcome(r, err, ast.IsNode(mkstruct(ast.NodeTypeHasTag, mkstruct(ast.BinaryNode, keptNode(env, n.(ast.NodeTypeHasTag).Left), keptNode(env, n.(ast.NodeTypeHasTag).Right)))), ToEval#0(ast.IsNode(mkstruct(ast.NodeTypeHasTag, mkstruct(ast.BinaryNode, pN(env, n.(ast.NodeTypeHasTag).Left), pN(env, n.(ast.NodeTypeHasTag).Right))))), env) : (err == nil && r == ast.IsNode(mkstruct(ast.NodeTypeHasTag, mkstruct(ast.BinaryNode, keptNode(env, n.(ast.NodeTypeHasTag).Left), keptNode(env, n.(ast.NodeTypeHasTag).Right))))))))
+//@   ensures (n is ast.NodeTypeSub) ==> (hardErr(pE(env, n.(ast.NodeTypeSub).Left)) ? (err == pE(env, n.(ast.NodeTypeSub).Left)) : (hardErr(pE(env, n.(ast.NodeTypeSub).Right)) ? (err == pE(env, n.(ast.NodeTypeSub).Right)) : ((isLitP(env, n.(ast.NodeTypeSub).Left) && isLitP(env, n.(ast.NodeTypeSub).Right)) ? pOutcome(r, err, ast.IsNode(mkstruct(ast.NodeTypeSub, mkstruct(ast.BinaryNode, keptNode(env, n.(ast.NodeTypeSub).Left), keptNode(env, n.(ast.NodeTypeSub).Right)), mkstruct(ast.AddNode))), ToEval#0(ast.IsNode(mkstruct(ast.NodeTypeSub, mkstruct(ast.BinaryNode, pN(env, n.(ast.NodeTypeSub).Left), pN(env, n.(ast.NodeTypeSub).Right)), mkstruct(ast.AddNode)))), env) : (err == nil && r == ast.IsNode(mkstruct(ast.NodeTypeSub, mkstruct(ast.BinaryNode, keptNode(env, n.(ast.NodeTypeSub).Left), keptNode(env, n.(ast.NodeTypeSub).Right)), mkstruct(ast.AddNode)))))))
+//@   ensures (n is ast.NodeTypeAdd) ==> (hardErr(pE(env, n.(ast.NodeTypeAdd).Left)) ? (err == pE(env, n.(ast.NodeTypeAdd).Left)) : (hardErr(pE(env, n.(ast.NodeTypeAdd).Right)) ? (err == pE(env, n.(ast.NodeTypeAdd).Right)) : ((isLitP(env, n.(ast.NodeTypeAdd).Left) && isLitP(env, n.(ast.NodeTypeAdd).Right)) ? pOutcome(r, err, ast.IsNode(mkstruct(ast.NodeTypeAdd, mkstruct(ast.BinaryNode, keptNode(env, n.(ast.NodeTypeAdd).Left), keptNode(env, n.(ast.NodeTypeAdd).Right)), mkstruct(ast.AddNode))), ToEval#0(ast.IsNode(mkstruct(ast.NodeTypeAdd, mkstruct(ast.BinaryNode, pN(env, n.(ast.NodeTypeAdd).Left), pN(env, n.(ast.NodeTypeAdd).Right)), mkstruct(ast.AddNode)))), env) : (err == nil && r == ast.IsNode(mkstruct(ast.NodeTypeAdd, mkstruct(ast.BinaryNode, keptNode(env, n.(ast.NodeTypeAdd).Left), keptNode(env, n.(ast.NodeTypeAdd).Right)), mkstruct(ast.AddNode)))))))
+//@   ensures (n is ast.NodeTypeNegate) ==> (hardErr(pE(env, n.(ast.NodeTypeNegate).Arg)) ? (err == pE(env, n.(ast.NodeTypeNegate).Arg)) : (isLitP(env, n.(ast.NodeTypeNegate).Arg) ? pOutcome(r, err, ast.IsNode(mkstruct(ast.NodeTypeNegate, mkstruct(ast.UnaryNode, keptNode(env, n.(ast.NodeTypeNegate).Arg)))), ToEval#0(ast.IsNode(mkstruct(ast.NodeTypeNegate, mkstruct(ast.UnaryNode, pN(env, n.(ast.NodeTypeNegate).Arg))))), env) : (err == nil && r == ast.IsNode(mkstruct(ast.NodeTypeNegate, mkstruct(ast.UnaryNode, keptNode(env, n.(ast.NodeTypeNegate).Arg)))))))
+//@   ensures (n is ast.NodeTypeNot) ==> (hardErr(pE(env, n.(ast.NodeTypeNot).Arg)) ? (err == pE(env, n.(ast.NodeTypeNot).Arg)) : (isLitP(env, n.(ast.NodeTypeNot).Arg) ? pOutcome(r, err, ast.IsNode(mkstruct(ast.NodeTypeNot, mkstruct(ast.UnaryNode, keptNode(env, n.(ast.NodeTypeNot).Arg)))), ToEval#0(ast.IsNode(mkstruct(ast.NodeTypeNot, mkstruct(ast.UnaryNode, pN(env, n.(ast.NodeTypeNot).Arg))))), env) : (err == nil && r == ast.IsNode(mkstruct(ast.NodeTypeNot, mkstruct(ast.UnaryNode, keptNode(env, n.(ast.NodeTypeNot).Arg)))))))
+//@   ensures (n is ast.NodeTypeIsEmpty) ==> (hardErr(pE(env, n.(ast.NodeTypeIsEmpty).Arg)) ? (err == pE(env, n.(ast.NodeTypeIsEmpty).Arg)) : (isLitP(env, n.(ast.NodeTypeIsEmpty).Arg) ? pOutcome(r, err, ast.IsNode(mkstruct(ast.NodeTypeIsEmpty, mkstruct(ast.UnaryNode, keptNode(env, n.(ast.NodeTypeIsEmpty).Arg)))), ToEval#0(ast.IsNode(mkstruct(ast.NodeTypeIsEmpty, mkstruct(ast.UnaryNode, pN(env, n.(ast.NodeTypeIsEmpty).Arg))))), env) : (err == nil && r == ast.IsNode(mkstruct(ast.NodeTypeIsEmpty, mkstruct(ast.UnaryNode, keptNode(env, n.(ast.NodeTypeIsEmpty).Arg)))))))
+//@   ensures (n is ast.NodeTypeAccess) ==> (hardErr(pE(env, n.(ast.NodeTypeAccess).Arg)) ? (err == pE(env, n.(ast.NodeTypeAccess).Arg)) : (isLitP(env, n.(ast.NodeTypeAccess).Arg) ? pOutcome(r, err, ast.IsNode(mkstruct(ast.NodeTypeAccess, mkstruct(ast.StrOpNode, keptNode(env, n.(ast.NodeTypeAccess).Arg), n.(ast.NodeTypeAccess).Value))), ToEval#0(ast.IsNode(mkstruct(ast.NodeTypeAccess, mkstruct(ast.StrOpNode, pN(env, n.(ast.NodeTypeAccess).Arg), n.(ast.NodeTypeAccess).Value)))), env) : (err == nil && r == ast.IsNode(mkstruct(ast.NodeTypeAccess, mkstruct(ast.StrOpNode, keptNode(env, n.(ast.NodeTypeAccess).Arg), n.(ast.NodeTypeAccess).Value))))))
+//@   ensures (n is ast.NodeTypeLike) ==> (hardErr(pE(env, n.(ast.NodeTypeLike).Arg)) ? (err == pE(env, n.(ast.NodeTypeLike).Arg)) : (isLitP(env, n.(ast.NodeTypeLike).Arg) ? pOutcome(r, err, ast.IsNode(mkstruct(ast.NodeTypeLike, keptNode(env, n.(ast.NodeTypeLike).Arg), n.(ast.NodeTypeLike).Value)), ToEval#0(ast.IsNode(mkstruct(ast.NodeTypeLike, pN(env, n.(ast.NodeTypeLike).Arg), n.(ast.NodeTypeLike).Value))), env) : (err == nil && r == ast.IsNode(mkstruct(ast.NodeTypeLike, keptNode(env, n.(ast.NodeTypeLike).Arg), n.(ast.NodeTypeLike).Value)))))
+//@   ensures (n is ast.NodeTypeIs) ==> (hardErr(pE(env, n.(ast.NodeTypeIs).Left)) ? (err == pE(env, n.(ast.NodeTypeIs).Left)) : (isLitP(env, n.(ast.NodeTypeIs).Left) ? pOutcome(r, err, ast.IsNode(mkstruct(ast.NodeTypeIs, keptNode(env, n.(ast.NodeTypeIs).Left), n.(ast.NodeTypeIs).EntityType)), ToEval#0(ast.IsNode(mkstruct(ast.NodeTypeIs, pN(env, n.(ast.NodeTypeIs).Left), n.(ast.NodeTypeIs).EntityType))), env) : (err == nil && r == ast.IsNode(mkstruct(ast.NodeTypeIs, keptNode(env, n.(ast.NodeTypeIs).Left), n.(ast.NodeTypeIs).EntityType)))))
+//@   ensures (n is ast.NodeTypeIsIn) ==> (hardErr(pE(env, n.(ast.NodeTypeIsIn).Left)) ? (err == pE(env, n.(ast.NodeTypeIsIn).Left)) : (hardErr(pE(env, n.(ast.NodeTypeIsIn).Entity)) ? (err == pE(env, n.(ast.NodeTypeIsIn).Entity)) : ((isLitP(env, n.(ast.NodeTypeIsIn).Left) && isLitP(env, n.(ast.NodeTypeIsIn).Entity)) ? pOutcome(r, err, ast.IsNode(mkstruct(ast.NodeTypeIsIn, mkstruct(ast.NodeTypeIs, keptNode(env, n.(ast.NodeTypeIsIn).Left), n.(ast.NodeTypeIsIn).EntityType), keptNode(env, n.(ast.NodeTypeIsIn).Entity))), ToEval#0(ast.IsNode(mkstruct(ast.NodeTypeIsIn, mkstruct(ast.NodeTypeIs, pN(env, n.(ast.NodeTypeIsIn).Left), n.(ast.NodeTypeIsIn).EntityType), pN(env, n.(ast.NodeTypeIsIn).Entity)))), env) : (err == nil && r == ast.IsNode(mkstruct(ast.NodeTypeIsIn, mkstruct(ast.NodeTypeIs, keptNode(env, n.(ast.NodeTypeIsIn).Left), n.(ast.NodeTypeIsIn).EntityType), keptNode(env, n.(ast.NodeTypeIsIn).Entity)))))))
+//@   ensures (n is ast.NodeValue) ==> (err == nil && r == n)
+//@   ensures (n is ast.NodeTypeVariable && (n.(ast.NodeTypeVariable).Name == "principal" || n.(ast.NodeTypeVariable).Name == "action" || n.(ast.NodeTypeVariable).Name == "resource" || n.(ast.NodeTypeVariable).Name == "context")) ==> pOutcome(r, err, n, ToEval#0(n), env)
+//@   loop 1
+//@     invariant len(args) == len(values) && !isnil(args)
+//@   loop 2
+//@     invariant len(elements) == len(v.Elements) && !isnil(elements)
+//@   loop 4
+//@     invariant len(el) == len(nodes) && !isnil(el)
 //@   loop 5
 //@     invariant len(el) == len(values) && !isnil(el)
